@@ -606,6 +606,35 @@ def offset_reaches_environment(rep):
                 if got != want:
                     bad.append((g, fn, d, got, want))
     rep.ob(f"R5: loader returns the entry in force (or none) for each of the {n} (function, date class) pairs of the yaml rounding sections", "refuted" if bad else "discharged", "exhaustive-run", 0, where, "loader")
+    # R5b: the same through the group loader (which decides for WHICH day the rounding block is resolved):
+    # on the day an entry starts, the day before and 100 days later
+    from _gettsim.policy_environment import _load_parameter_group_from_yaml
+
+    n2 = 0
+    bad2 = []
+    for g, rs in raws.items():
+        days = set()
+        for fn, spec in rs.items():
+            for k in spec:
+                if isinstance(k, datetime.date) and k.year >= 1980:
+                    days |= {k, k - one, k + 100 * one}
+        for d in sorted(days):
+            try:
+                grp = _load_parameter_group_from_yaml(d, g)
+            except Exception as ex:  # noqa: BLE001
+                bad2.append((g, "*", d, repr(ex)[:80], None))
+                continue
+            for fn, spec in rs.items():
+                keys = sorted(k for k in spec if isinstance(k, datetime.date))
+                past = [k for k in keys if k <= d]
+                want = {k: spec[max(past)][k] for k in ("base", "direction", "to_add_after_rounding") if k in spec[max(past)]} if past else None
+                got = (grp.get("rounding") or {}).get(fn)
+                n2 += 1
+                if got != want:
+                    bad2.append((g, fn, d, got, want))
+    rep.ob(f"R5b: the environment of a day holds the rounding entry in force THAT day ({n2} (function, day) pairs through _load_parameter_group_from_yaml)", "refuted" if bad2 else "discharged", "exhaustive-run", 0, "src/_gettsim/policy_environment.py:259 _load_parameter_group_from_yaml", "loader")
+    for g, fn, d, got, want in bad2[:5]:
+        rep.violation(f"rounding-spec-by-day:{g}.{fn}@{d}", f"environment of {d} has rounding spec {got} for {fn}, the parameter file says {want}", {"obligation": "R5b", "group": g, "function": fn, "date": str(d), "loaded": got, "yaml": want, "replay": f"set_up_policy_environment('{d}')[0]['{g}']['rounding']['{fn}']"}, True)
     for g, fn, d, got, want in bad[:5]:
         rep.violation(f"rounding-spec-lost:{g}.{fn}@{d}", f"environment of {d} has rounding spec {got} for {fn}, the parameter file says {want}", {"obligation": "R5", "group": g, "function": fn, "date": str(d), "loaded": got, "yaml": want, "replay": f"set_up_policy_environment('{d}')[0]['{g}']['rounding']['{fn}']"}, True)
 
